@@ -165,7 +165,11 @@ func ruleNoOrderDep(w *World, r *Report, in map[*ssa.Function]bool) {
 			ord++
 			n++
 			key := fmt.Sprintf("NOORDERDEP / %s / positional use#%d", name, ord)
-			if name == "detector.CheckExtendedSpatialIdsOverlap" {
+			root := f
+			for root.Parent() != nil {
+				root = root.Parent()
+			}
+			if w.FuncName(root) == "detector.CheckExtendedSpatialIdsOverlap" {
 				if k, ok := constInt(idx); ok && k == 0 {
 					r.Add(Obligation{Rule: "NOORDERDEP", Key: key, Pos: w.Pos(ins.Pos()), Status: Discharged, Detail: "element 0 of a zoom-aligned result that is a singleton (both axes are coarsened or kept: rule MINSEL)", Canary: can})
 					return
@@ -380,7 +384,7 @@ func ruleCorridor(w *World, r *Report) {
 		r.add("LAYERFIT", fn+" / layer counts", pos, Discharged, "hLayers, vLayers = max over all line voxels of FitClearanceAroundExtendedSpatialID(voxel, radius)")
 	} else {
 		st := Violated
-		if strings.HasPrefix(why, "expected one") || strings.Contains(why, "is not inside a loop over the line IDs") || strings.Contains(why, "do not come from one helper call") || strings.Contains(why, "are not the running maxima") || strings.Contains(why, "has no success return") {
+		if strings.HasPrefix(why, "expected one") || strings.Contains(why, "is not inside a loop over the line IDs") || strings.Contains(why, "do not come from one helper call") || strings.Contains(why, "are not the running maxima") || strings.Contains(why, "not the running maxima in a recognised form") || strings.Contains(why, "has no success return") {
 			st = Undecided // the construction was not recognised; nothing wrong was seen
 		}
 		r.add("LAYERFIT", fn+" / layer counts", pos, st, why)
@@ -467,8 +471,25 @@ func ruleCorridor(w *World, r *Report) {
 		}
 	}
 	if len(ai.Appends) == 0 {
+		// a neighbourhood list (a box around the line, minus the line) handed on as it is in the
+		// measured mode: candidates that were never compared with the radius
+		if bc := boxCallOf(measuredList, 0); bc != nil && bc == getN {
+			// the whole box of the candidates, not yet reduced by the line: box ∪ line = candidates ∪ line
+			r.add("FILTER-SUBSET", fn+" / measured list", pos, Undecided, "a result variant unions the candidate box itself; the measured additions were not identified")
+			return
+		}
+		if resolve(measuredList) != ssa.Value(cand) && derivesFromBox(measuredList, 0) {
+			r.add("FILTER-SUBSET", fn+" / measured list", pos, Violated, "a list taken from a neighbourhood box ("+describeValue(measuredList)+") is returned with the measured additions although its voxels were never compared with the radius")
+			return
+		}
 		r.add("FILTER-SUBSET", fn+" / measured list", pos, Undecided, "the measured additions are not built by appends ("+describeValue(measuredList)+")")
 		return
+	}
+	for _, b := range ai.Bases {
+		if !isEmptySliceBase(b) && derivesFromBox(b, 0) && boxCallOf(b, 0) != getN {
+			r.add("FILTER-SUBSET", fn+" / measured list", pos, Violated, "the measured additions start from a list taken from a neighbourhood box ("+describeValue(b)+"): those voxels are returned without having been compared with the radius")
+			return
+		}
 	}
 	if !okBase {
 		r.add("FILTER-SUBSET", fn+" / measured list", pos, Violated, "the measured additions do not start from an empty list")
@@ -586,8 +607,29 @@ func layerFitShape(g *ssa.Function, isList func(ssa.Value) bool, radius ssa.Valu
 		for i, nm := range []string{"hLayers", "vLayers"} {
 			acc, ok := resolve(hv[i]).(*ssa.Phi)
 			res := extractOf(fc, i)
-			if !ok || res == nil || acc.Block() != sr.Header || !runningMax(g, sr, acc, res) {
-				return false, nm + " is not the running maximum of the fitted " + nm + " over the line voxels"
+			if ph, isPhi := resolve(hv[i]).(*ssa.Phi); isPhi && res != nil && ph.Block() != sr.Header {
+				// a value merged after the loop: the running maximum on some paths, something else on others
+				hasMax, other := false, ""
+				for _, e := range ph.Edges {
+					if ep, isP := resolve(e).(*ssa.Phi); isP && ep.Block() == sr.Header && runningMax(g, sr, ep, res) {
+						hasMax = true
+					} else if other == "" {
+						other = describeValue(e)
+					}
+				}
+				if hasMax && other != "" {
+					return false, nm + " is not the running maximum of the fitted " + nm + " over the line voxels: after the loop it is replaced on some paths by " + other
+				}
+			}
+			if !ok || res == nil || acc.Block() != sr.Header {
+				// kept in an array element, a struct field, a closure variable: not followed
+				return false, nm + " could not be followed to a loop-carried value: the layer counts are not the running maxima in a recognised form"
+			}
+			if !runningMax(g, sr, acc, res) {
+				if takesSmaller(g, sr, acc, res) {
+					return false, nm + " is not the running maximum of the fitted " + nm + " over the line voxels"
+				}
+				return false, nm + " is updated in a way that was not recognised: the layer counts are not the running maxima in a recognised form"
 			}
 		}
 		return true, ""
@@ -665,6 +707,98 @@ func runningMax(f *ssa.Function, sr *sliceRange, acc *ssa.Phi, res ssa.Value) bo
 		}
 	}
 	return true
+}
+
+// takesSmaller: positive evidence that acc is not a running maximum: when the
+// new fit is smaller than acc, some feasible back edge still carries the new fit
+// (last value wins, or a minimum).
+func takesSmaller(f *ssa.Function, sr *sliceRange, acc *ssa.Phi, res ssa.Value) bool {
+	orc := oracleFor([]pairRel{{res, acc, relLT}})
+	reach := simulate(sr.Body, map[*ssa.BasicBlock]bool{sr.Header: true}, orc)
+	for i, pred := range acc.Block().Preds {
+		if !sr.blocks()[pred] || !reach[pred] {
+			continue
+		}
+		t, fl, ifi := ifSuccs(pred)
+		if ifi != nil {
+			if out, known := orc(ifi.Cond); known {
+				if (out && t != sr.Header) || (!out && fl != sr.Header) {
+					continue
+				}
+			}
+		}
+		v := resolve(acc.Edges[i])
+		if p, ok := v.(*ssa.Phi); ok && p != acc {
+			pv, uniq := phiValueUnder(f, p, orc)
+			if !uniq {
+				continue
+			}
+			v = resolve(pv)
+		}
+		if v == resolve(res) {
+			return true
+		}
+	}
+	return false
+}
+
+// derivesFromBox: the list is the result of operated.GetNspatialIdsAroundVoxcels,
+// possibly passed through the set helpers of package common.
+func derivesFromBox(v ssa.Value, depth int) bool { return boxCallOf(v, depth) != nil }
+
+// boxCallOf: the GetNspatialIdsAroundVoxcels call the list is taken from (nil if none).
+func boxCallOf(v ssa.Value, depth int) *ssa.Call {
+	if depth > 5 {
+		return nil
+	}
+	v = resolve(v)
+	switch x := v.(type) {
+	case *ssa.Extract:
+		return boxCallOf(x.Tuple, depth+1)
+	case *ssa.Call:
+		if calleeIs(x, modPath+"/operated", "GetNspatialIdsAroundVoxcels") {
+			return x
+		}
+		for _, nm := range []string{"Difference", "Unique", "Union", "Intersect"} {
+			if calleeIs(x, modPath+"/common", nm) && len(x.Call.Args) > 0 {
+				return boxCallOf(x.Call.Args[0], depth+1)
+			}
+		}
+	case *ssa.Phi:
+		for _, e := range x.Edges {
+			if c := boxCallOf(e, depth+1); c != nil {
+				return c
+			}
+		}
+	}
+	return nil
+}
+
+func derivesFromBoxOld(v ssa.Value, depth int) bool {
+	if depth > 5 {
+		return false
+	}
+	v = resolve(v)
+	switch x := v.(type) {
+	case *ssa.Extract:
+		return derivesFromBox(x.Tuple, depth+1)
+	case *ssa.Call:
+		if calleeIs(x, modPath+"/operated", "GetNspatialIdsAroundVoxcels") {
+			return true
+		}
+		for _, nm := range []string{"Difference", "Unique", "Union", "Intersect"} {
+			if calleeIs(x, modPath+"/common", nm) && len(x.Call.Args) > 0 {
+				return derivesFromBox(x.Call.Args[0], depth+1)
+			}
+		}
+	case *ssa.Phi:
+		for _, e := range x.Edges {
+			if derivesFromBox(e, depth+1) {
+				return true
+			}
+		}
+	}
+	return false
 }
 
 func unwrapUnique(w *World, v ssa.Value) ssa.Value {
